@@ -27,6 +27,10 @@ P = {
              note="PARTIAL: the clause budget <= per-move share (two float conversions and a product) and the monolithic moves*budget bound run in the thorough tier only (30-110 s per case, solver portfolio). Integer division by constants is abstracted by its defining inequalities. NOT encoded: timer goroutine / wall-clock promptness, depth-limited iteration count, node-limit overshoot, searchmoves (the engine never consults Limits.Moves and the UCI token is parsed as 'moves': see DESIGN §6)."),
  "C15": dict(ref="§4 C15", text="Evaluate on a symbolic well-formed position with arbitrary (bounded) material/piece-square totals: value independent of the evaluator instance and of earlier evaluations (instance fields and the package-level scratch score arbitrary), position unchanged, insufficient material => 0, colour-mirror symmetry; lazy-evaluation and advanced-piece-evaluation switches case-split; value tables colour-symmetric (data obligation)",
              note="(*Score).ValueFromScore is summarised by an uninterpreted function that is odd by construction; oddness of the real float64 code is a thorough-tier obligation (VH_C15_value_from_score_odd_T). Quick: purity for 3 of 4 switch combinations, symmetry for the default switches. Known findings: tempo bonus sign for Black, four asymmetric piece-square entries. History independence follows from C03/C04 (the value is a function of fields those restore / maintain)."),
+ "C14": dict(ref="§4 C14", text="sequentialised thread-modular harnesses on the real StartSearch / run / startTimer code with semaphores as their own counters: a start request never blocks the controller (also while a search is running); run() delivers exactly one result, for infinite/ponder only after stop was observed, and releases isRunning and the init semaphore on every exit; the timer body sets the stop flag only for the search it was started for under an environment that may end/restart searches at every sleep",
+             note="PARTIAL: data-race freedom is NOT claimed (plain-bool stop flag shared by three goroutines; needs a happens-before analysis outside this technique); preemption is only modelled at Sleep/semaphore operations; <=3 polls of the wait/timer loops (unwinding-checked under a fairness assumption: stop arrives / the clock passes the limit within 3 polls). Counterexamples are abstract (environment choices) and are not replayed natively. Known finding: stale timer stops the next search."),
+ "C20": dict(ref="§4 C20", text="initialize / loadFromCache / saveToCache with every file-system and gob outcome nondeterministic (Open fails, Decode fails with arbitrary map contents, ...) and bookLock modelled by its own state word: no path re-locks the held lock (the hang), initialize returns with the lock released, a failed cache load is followed by a source build that starts with the lock free and a fresh map, a cache hit skips the build",
+             note="PARTIAL: the gob codec itself (exact save/load round trip, every truncation makes Decode fail) is a library contract and is NOT decided; the native witness replays the lock obligations with a real garbage cache file."),
 }
 NA = {}
 for i in range(1,21):
